@@ -16,6 +16,21 @@ CLAIMED = {
              "(anything outside it is exit 2, never a pass). User-defined PDU subclasses are outside the quantifier; "
              "find_pdu<T>(type) assumed called with its default argument.",
     ),
+    "C18": dict(
+        category="other",
+        design_ref="DESIGN.md section 3 / C18",
+        technique="static analysis: enumeration of every static-storage object from the AST, read/write/escape "
+                  "classification of every reference, libc deny-list, LLVM-IR store cross-view (thorough)",
+        text="Decides the 'no hidden shared mutable state inside libtins' clause completely for the configured "
+             "build: every object with static storage duration (incl. function-local statics, class statics, statics "
+             "of template patterns) is const without mutable parts, never written outside its initialiser, or a "
+             "listed registry written only by register_allocator; no non-re-entrant libc call on the thread-private "
+             "surface; HMAC never uses its static result buffer. Anything new that is writable is a violation by "
+             "default; positive controls run on every invocation.",
+        note="Does not model state inside libpcap/OpenSSL/libstdc++ beyond the deny-list; 'each thread obtains the "
+             "same results' follows only under that assumption. register_allocator is treated as configuration "
+             "performed before threads start.",
+    ),
 }
 
 PENDING_REASON = "static rules for this property are designed (DESIGN.md section 3) but not yet implemented/validated; not claimed until silent-and-sensitive"
